@@ -15,3 +15,21 @@ Definition accept_C12 (c : option fp * bool) (variants : list (option fp)) : ver
   | None => (false, 9%nat)
   | Some r => (snd c && forallb (fun v => match v with Some f => same_fp r f | None => false end) variants, length variants)
   end.
+
+(* ---- object level (Model/ObjDict.v): the species writer and reader, numbers carried as the text Python prints for them ---- *)
+From Coq Require Import List.
+From Verif Require Import ReactionText Units UnitText Schemas Dict ObjDict.
+Import ListNotations.
+
+Definition sp_obj := species_obj str.
+Definition wr12 := write_fields jv.
+Definition model_write (s : sp_obj) : jv := write_species str (fun t => t) wr12 s.
+Definition model_read (parent : usys) (v : jv) : res sp_obj := read_species str (fun t => Some t) [48%N; 46%N; 48%N] parent v.
+
+(* written: species_to_dict of the object built from s; variants: dictionaries given to species_from_dict (under `parent`) with what
+   species_to_dict returned for the object read *)
+Definition accept_C12_species (c : sp_obj * usys) (o : jv * list (jv * jv)) : verdict :=
+  let '(s, parent) := c in let '(written, variants) := o in
+  (jv_eqb (model_write s) written
+   && forallb (fun io : jv * jv => match model_read parent (fst io) with Ok s' => jv_eqb (model_write s') (snd io) | Err => false end) variants,
+   S (length variants)).
